@@ -201,7 +201,10 @@ ValPool ==
      V1 |-> {BVC(k, 1) : k \in 0..1}, V2 |-> {BVC(k, 2) : k \in 0..3}, V3 |-> {BVC(k, 3) : k \in 0..7},
      V4 |-> {BVC(k, 4) : k \in 0..15}, V5 |-> {BVC(k, 5) : k \in 0..31},
      S |-> {Str(<<>>), Str(<<97>>), Str(<<98>>), Str(<<97, 98>>), Str(<<98, 97>>), Str(<<97, 97>>),
-            Str(<<48>>), Str(<<49, 48>>), Str(<<45, 53>>), Str(<<97, 98, 97>>), Str(<<32, 55>>)},
+            Str(<<48>>), Str(<<49, 48>>), Str(<<45, 53>>), Str(<<97, 98, 97>>), Str(<<32, 55>>),
+            \* characters Unicode classifies as digits / letters without being SMT-LIB digits:
+            \* ARABIC-INDIC THREE, FULLWIDTH SEVEN + "1", SUPERSCRIPT TWO, e-acute
+            Str(<<1635>>), Str(<<65303, 49>>), Str(<<178>>), Str(<<233>>)},
      AII |-> {K0, K0s, K1, K2},
      AVB |-> {KB, KF}]
 
